@@ -493,10 +493,17 @@ def apply_op(x, op, a, b, c, inplace):
         return x.downsample([2, 3][a % 2], **kw) or x
     if op == 'downsample_inf':
         return navis.downsample_neuron(x, float('inf'), **kw) or x
-    if op == 'resample':
-        return navis.resample_skeleton(x, [1, 2, 0.5][a % 3], **kw) or x
-    if op == 'resample_m':
-        return x.resample([1, 2][a % 2], **kw) or x
+    if op in ('resample', 'resample_m'):
+        # keep the result small whatever scalings came before: resolution >= cable / 150 (cable computed from the table,
+        # not through the cached property)
+        df = x.nodes
+        pos = df.set_index('node_id')[['x', 'y', 'z']]
+        nr = df[df.parent_id >= 0]
+        cable = float(np.sqrt(((pos.loc[nr.node_id.values].values - pos.loc[nr.parent_id.values].values) ** 2).sum(axis=1)).sum()) if len(nr) else 0.0
+        res = max([1, 2, 0.5][a % 3], cable / 150.0)
+        if op == 'resample':
+            return navis.resample_skeleton(x, res, **kw) or x
+        return x.resample(res, **kw) or x
     if op in ('imul', 'idiv', 'iadd', 'isub'):
         k = [2, 4, 0.5][a % 3]
         if op == 'imul':
